@@ -6,10 +6,8 @@
   Model: Echse.Model.RrText (`sendRrul`, `snarfRrule`, `ruleBody`), tied to src/evical.c by the ops `r.parse` /
   `r.print` of the correspondence check.  Statements only; the proofs are in Echse/Lemmas/RrText1 … RrText12.
 
-  FINDING recorded below (`scale_ia_count_counterexample` …): for SCALE=HIJRI.IA / .IC / .IIA / .IIC the round trip
-  is FALSE — `snarf_scale` looks at bytes behind the scale name, so the scale read back depends on the part that
-  follows (`;COUNT=` turns IA into IC, IIA into IIC; IC and IIC come back as IA and IIA otherwise).
-  `PrintableRule` therefore admits the scales 0 (Gregorian) and 5 … 10 only.
+  (Finding D123, repaired in the C code: `snarf_scale` looked at bytes behind the scale name, so HIJRI.IA/IC/IIA/IIC
+  were read back wrongly depending on what followed; see `scale_names_roundtrip`.)
 -/
 import Echse.Lemmas.RrText12
 import Echse.Spec.RrOk
@@ -31,7 +29,7 @@ structure PrintableRule (r : Rule) : Prop where
   /-- FREQ is one of YEARLY … SECONDLY (a rule without FREQ is written `FREQ=NONE`, which does not parse) -/
   freq : 1 ≤ r.freq ∧ r.freq ≤ 7
   /-- SCALE: Gregorian, or one of HIJRI.IIIA, IIIC, IVA, IVC, UMMULQURA, DIYANET (see the finding above) -/
-  scale : r.scale = 0 ∨ (5 ≤ r.scale ∧ r.scale ≤ 10)
+  scale : r.scale = 0 ∨ (1 ≤ r.scale ∧ r.scale ≤ 10)
   /-- INTERVAL: 1 (not written) or what `snarf_rrule` admits, 1 … INT_MAX -/
   inter : 1 ≤ r.inter ∧ r.inter < 2^31
   /-- COUNT: none (-1) or 1 … INT_MAX (`COUNT=0` is rejected by the parser) -/
@@ -64,7 +62,7 @@ structure PrintableRule (r : Rule) : Prop where
 
 /-- the conjuncts are all decidable -/
 def printableRuleB (r : Rule) : Bool :=
-  decide (1 ≤ r.freq ∧ r.freq ≤ 7) && decide (r.scale = 0 ∨ (5 ≤ r.scale ∧ r.scale ≤ 10)) &&
+  decide (1 ≤ r.freq ∧ r.freq ≤ 7) && decide (r.scale = 0 ∨ (1 ≤ r.scale ∧ r.scale ≤ 10)) &&
   decide (1 ≤ r.inter ∧ r.inter < 2^31) && decide (r.count = -1 ∨ (1 ≤ r.count ∧ r.count < 2^31)) &&
   decide (r.untl = Inst.unpack (2^64 - 1) ∨ UntilOk r.untl) && decide (ShiftOk r.shift) &&
   decide (AscU r.mon ∧ ∀ m ∈ r.mon, 1 ≤ m ∧ m ≤ 12) && decide (AscI r.wk ∧ ∀ w ∈ r.wk, w ≠ 0 ∧ -53 ≤ w ∧ w ≤ 53) &&
@@ -178,14 +176,11 @@ example : sendRrul { freq := 3, count := 2, dow := [1, -2], shift := 2 } 7 true
 
 /-! ### findings: where the round trip fails -/
 
-/-- FINDING: SCALE=HIJRI.IA followed by COUNT is read back as HIJRI.IC -/
-theorem scale_ia_count_counterexample :
-    sendRrul { freq := 4, scale := 1, count := 5 } 0 false = "RRULE:FREQ=DAILY;SCALE=HIJRI.IA;COUNT=5\n" ∧
-    snarfRrule "FREQ=DAILY;SCALE=HIJRI.IA;COUNT=5" = { freq := 4, scale := 2, count := 5 } := by decide
-/-- FINDING: SCALE=HIJRI.IIC is read back as HIJRI.IIA (unless `;COUNT=` follows) -/
-theorem scale_iic_counterexample :
-    sendRrul { freq := 4, scale := 4 } 0 false = "RRULE:FREQ=DAILY;SCALE=HIJRI.IIC\n" ∧
-    snarfRrule "FREQ=DAILY;SCALE=HIJRI.IIC" = { freq := 4, scale := 3 } := by decide
+/-- (finding D123, repaired: `snarf_scale` used to look at bytes behind the scale name) every scale name is read back
+as itself, whatever follows it -/
+theorem scale_names_roundtrip : ∀ sca ∈ List.range 11,
+    snarfRrule (ruleBody (sendRrul { freq := 4, scale := sca, count := 5 } 0 false)) = { freq := 4, scale := sca, count := 5 } ∧
+    snarfRrule (ruleBody (sendRrul { freq := 4, scale := sca } 0 false)) = { freq := 4, scale := sca } := by decide
 /-- a used-up COUNT (0, no cached occurrences) is written as `COUNT=0`, which the parser rejects -/
 theorem count_zero_counterexample :
     sendRrul { freq := 4, count := 0 } 0 false = "RRULE:FREQ=DAILY;COUNT=0\n" ∧
